@@ -16,7 +16,8 @@ Import ListNotations.
 Local Open Scope Z_scope.
 """
 
-OPS = {0: "apply", 1: "marginalise", 2: "merge", 3: "revert", 4: "preconditioner_apply", 5: "whitened_rms"}
+OPS = {0: "apply", 1: "marginalise", 2: "merge", 3: "revert", 4: "preconditioner_apply", 5: "whitened_rms",
+       6: "revert_lstsq_singular", 7: "normal_ops"}
 
 
 def rmat(rng, n, m, lo=-8, hi=8, den=4, zero_p=0.15):
@@ -81,6 +82,130 @@ def gen_case(rng, tier):
         blocks.append(b)
     return {"kind": kind, "op": op, "d": d, "nin": nin, "nmid": nmid, "nout": nout, "c": c, "blocks": blocks,
             "span": span}
+
+
+def gen_extra_case(rng, tier, op):
+    """op 6: reversal with singular covariances through the SVD least squares; op 7: Normal operations."""
+    kind = rng.choice(["dense", "iso", "blockdiag"])
+    d = rng.choice([1, 2, 3])
+    c = d if kind == "iso" else 1
+    nblocks = d if kind == "blockdiag" else 1
+    if op == 6:
+        nin = rng.randint(2, 4)
+        nout = rng.randint(1, nin - 1)
+        span = rng.choice([0, 2])
+        blocks = []
+        for _ in range(nblocks):
+            K = gen_cond(rng, nin, nout, c, span, zero_noise=True)
+            # rank-deficient prior covariance AND zero noise: S = A P A^T is (possibly) singular
+            L = rlower(rng, nin, singular=True)
+            if rng.random() < 0.5:
+                K["A"][nout - 1] = [x for x in K["A"][0]]  # duplicated observation row -> singular S
+                K["b"][nout - 1] = [x for x in K["b"][0]]
+            blocks.append({"K1": K, "rv": {"m": rmat(rng, nin, c), "L": L}})
+        return {"kind": kind, "op": 6, "d": d, "nin": nin, "nmid": 1, "nout": nout, "c": c, "blocks": blocks, "span": span}
+    n = 2
+    nin = n * d if kind == "dense" else n
+    blocks = [{"K1": None, "rv": {"m": rmat(rng, nin, c), "L": rlower(rng, nin)}, "x": rmat(rng, nin, c)} for _ in range(nblocks)]
+    return {"kind": kind, "op": 7, "d": d, "nin": nin, "nmid": 1, "nout": 1, "c": c, "blocks": blocks, "span": 0}
+
+
+def check_extra(case, out):
+    """Evaluate the property's own predicates in float64 on exact inputs. Returns mismatch text or None."""
+    import numpy as np
+    f = lambda M: np.array([[float(x) for x in r] for r in M], dtype=float)  # noqa: E731
+    kind, d, c = case["kind"], case["d"], case["c"]
+    if case["op"] == 6:
+        nin, nout = case["nin"], case["nout"]
+        pos = 0
+        for bi, b in enumerate(case["blocks"]):
+            K = b["K1"]
+            A, bb, Lq = f(K["A"]), f(K["b"]), f(K["L"])
+            tl, to = np.array([float(x) for x in K["tl"]]), np.array([float(x) for x in K["to"]])
+            m, L = f(b["rv"]["m"]), f(b["rv"]["L"])
+            P = L @ L.T
+            Ap = to[:, None] * A * tl[None, :]
+            bp = to[:, None] * bb
+            Qp = to[:, None] * (Lq @ Lq.T) * to[None, :]
+            m_obs = Ap @ m + bp
+            S = Ap @ P @ Ap.T + Qp
+            seg = np.array(out[pos:pos + nout * c + nout * nout + nin * nout + nin * c + nin * nin])
+            pos += len(seg)
+            k = 0
+            om = seg[k:k + nout * c].reshape(nout, c); k += nout * c
+            oS = seg[k:k + nout * nout].reshape(nout, nout); k += nout * nout
+            G = seg[k:k + nin * nout].reshape(nin, nout); k += nin * nout
+            g0 = seg[k:k + nin * c].reshape(nin, c); k += nin * c
+            Pb = seg[k:k + nin * nin].reshape(nin, nin)
+            sc = max(np.abs(S).max(), np.abs(P).max(), 1e-300)
+            tol = 1e-7
+            if not np.allclose(om, m_obs, rtol=tol, atol=tol * max(np.abs(m_obs).max(), 1.0)):
+                return f"block {bi}: observed mean differs from A m + b"
+            if not np.allclose(oS, S, rtol=tol, atol=tol * sc):
+                return f"block {bi}: observed covariance differs from A P A^T + Q"
+            if not np.allclose(G @ S, P @ Ap.T, rtol=1e-6, atol=1e-6 * max(np.abs(P @ Ap.T).max(), sc, 1e-300)):
+                return f"block {bi}: gain * Cov(y) differs from the cross-covariance Cov(x, y) (singular covariance): max diff {np.abs(G @ S - P @ Ap.T).max():.3g}"
+            if not np.allclose(G @ m_obs + g0, m, rtol=1e-6, atol=1e-6 * max(np.abs(m).max(), 1.0)):
+                return f"block {bi}: backward conditional applied to the observed mean does not return the prior mean"
+            if not np.allclose(G @ S @ G.T + Pb, P, rtol=1e-6, atol=1e-6 * max(np.abs(P).max(), 1e-300)):
+                rk = np.linalg.matrix_rank(S, tol=1e-9 * max(np.abs(S).max(), 1e-300))
+                if rk < nout and rk > 0:
+                    return (f"RANKDEF block {bi}: with a rank-deficient (rank {rk} < {nout}) non-zero innovation covariance the returned "
+                            f"G S G^T + Cov(x|y) falls short of Cov(x) by up to {np.abs(G @ S @ G.T + Pb - P).max():.3g} (joint law not reproduced)")
+                return f"block {bi}: G S G^T + Cov(x|y) differs from Cov(x) (joint law not reproduced)"
+        return None
+    # op 7
+    covs, means, xs = [], [], []
+    for b in case["blocks"]:
+        L = f(b["rv"]["L"])
+        covs.append(L @ L.T)
+        means.append(f(b["rv"]["m"]))
+        xs.append(f(b["x"]))
+    n = 2
+    if kind == "dense":
+        std_want = np.sqrt(np.diag(covs[0]))
+        std_got = np.array(out["std"])
+    elif kind == "iso":
+        std_want = np.sqrt(np.diag(covs[0]))
+        std_got = np.array(out["std"])
+    else:
+        std_want = np.array([np.sqrt(np.diag(cv)) for cv in covs]).T.reshape(-1)     # tree order: coefficient-major
+        std_got = np.array(out["std"])
+    if std_got.shape != std_want.shape or not np.allclose(np.sort(std_got), np.sort(std_want), rtol=1e-9, atol=1e-12):
+        return f"std differs from sqrt(diag(cov)): {std_got.tolist()} vs {std_want.tolist()}"
+    if kind != "iso" and not np.allclose(std_got, std_want, rtol=1e-9, atol=1e-12):
+        return f"std ordering differs: {std_got.tolist()} vs {std_want.tolist()}"
+    lp = 0.0
+    for cv, mm, xx in zip(covs, means, xs):
+        for a in range(mm.shape[1]):
+            r = xx[:, a] - mm[:, a]
+            sign, logdet = np.linalg.slogdet(cv)
+            lp += -0.5 * (r @ np.linalg.solve(cv, r) + logdet + len(r) * np.log(2 * np.pi))
+    if not abs(out["logpdf"] - lp) <= 1e-8 * max(1.0, abs(lp)):
+        return f"logpdf {out['logpdf']!r} differs from the multivariate-normal log-density {lp!r}"
+    # rescale_cholesky(1.5): covariance x 2.25, mean unchanged
+    want = []
+    for cv, mm in zip(covs, means):
+        want += mm.reshape(-1).tolist() + (2.25 * cv).reshape(-1).tolist()
+    if not np.allclose(np.array(out["rescaled"]), np.array(want), rtol=1e-10, atol=1e-12):
+        return "rescale_cholesky(1.5) does not scale the covariance by 2.25"
+    # dense conversion
+    N = n * d
+    if kind == "dense":
+        Mw, Cw = means[0].reshape(-1), covs[0]
+    elif kind == "iso":
+        Mw = means[0].reshape(-1)
+        Cw = np.kron(covs[0], np.eye(d))
+    else:
+        Mw = np.array([means[a][i, 0] for i in range(n) for a in range(d)])
+        Cw = np.zeros((N, N))
+        for a in range(d):
+            for i in range(n):
+                for j in range(n):
+                    Cw[i * d + a, j * d + a] = covs[a][i, j]
+    if not (np.allclose(np.array(out["mvn_mean"]).reshape(-1), Mw, rtol=1e-10, atol=1e-12) and np.allclose(np.array(out["mvn_cov"]), Cw, rtol=1e-10, atol=1e-12)):
+        return "to_multivariate_normal differs from the dense embedding (coefficient-major ordering)"
+    return None
 
 
 def q_cond(K):
@@ -188,6 +313,23 @@ def main():
                 worst = max(worst, w)
     else:
         ck.report("C08.model-eval", "model evaluation failed (Coq)", {"notes": ck.notes, "broken": "Run/GaussRun.v c08_run"}, nofail=True)
+    # ---- reversal with singular covariances (lstsq path) and Normal operations: the property's predicates evaluated directly
+    ne = 60 if ck.tier == "quick" else 600
+    extra = [gen_extra_case(ck.rng, ck.tier, ck.rng.choice([6, 6, 7])) for _ in range(ne)]
+    eres = lib.run_impl("c08_impl.py", {"cases": [floatable(c) for c in extra]}, timeout=3000)["results"]
+    for c, r in zip(extra, eres):
+        ck.count("extra:" + json.dumps(jsonable(c), sort_keys=True), nontrivial=True,
+                 sample={"kind": c["kind"], "op": OPS[c["op"]], "d": c["d"], "nin": c["nin"], "nout": c["nout"]},
+                 kind=c["kind"], op=OPS[c["op"]], d=c["d"])
+        if "error" in r:
+            ck.report(signature(c, "exc") + ".exception", f"implementation raised {r['error']}", {"case": jsonable(c), "impl": r})
+            continue
+        mism = check_extra(c, r["out"])
+        if mism and mism.startswith("RANKDEF"):
+            ck.report("C08.revert_lstsq.rank-deficient-innovation", f"{c['kind']} revert(lstsq_svd): {mism[8:]}",
+                      {"case": jsonable(c), "impl": r["out"], "mismatch": mism})
+        elif mism:
+            ck.report(signature(c, mism), f"{c['kind']} {OPS[c['op']]}: {mism}", {"case": jsonable(c), "impl": r["out"], "mismatch": mism})
     ck.hist["singular_skipped"] = {"n": skipped_singular}
     ck.hist["worst_rel_discrepancy"] = {"value": worst}
     if not pr["ok"] and not ck.violations:
